@@ -38,6 +38,7 @@ def setup(rep, tier):
     rep.minimum('R19.7', 1)
     rep.minimum('R19.8', 1)
     rep.minimum('R19.9', 1)
+    rep.minimum('R19.10', 3)
 
 
 def r19_12(rep, prog):
@@ -149,6 +150,49 @@ def r19_12(rep, prog):
     (rep.holds if ok else rep.violated)('R19.2', '%s:soft_clip saturating pre-pass is element-wise' % prog.config, f.where(), None if ok else [sx.show(n) for n in pre][:2], **({} if ok else {'key': 'prepass'}))
 
 
+
+def r19_10(rep, prog, fdecs, gf):
+    """every decoded, concealed or FEC-recovered frame goes through the gain: in opus_decode_native each call of a frame
+    decoder either is a call of a gain-applying function (the scaling function itself, or a wrapper that calls it on
+    every success path), or is followed on every live path to a success return by such a call."""
+    applying = {gf.name}
+    changed = True
+    while changed:
+        changed = False
+        for f in prog.functions_all:
+            if f.name in applying or not f.file.endswith('opus_decoder.c'):
+                continue
+            cf = cfgm.CFG(f)
+            sites = {b for b, i, c in T.calls_to(cf, tuple(applying))}
+            if not sites:
+                continue
+            succ = {b for b, i, r_ in T.returns_of(cf) if not (len(r_) > 1 and (sx.int_val(sx.strip(r_[1])) or 0) < 0)}
+            if succ and cf.must_pass_live(cf.entry, succ, sites) and f.name != 'opus_decode_native':
+                applying.add(f.name)
+                changed = True
+    f = prog.fn('opus_decode_native')
+    cf = cfgm.CFG(f)
+    names = {g.name for g in fdecs}
+    n = 0
+    for b, i, c in T.calls_to(cf, tuple(names)):
+        n += 1
+        inst = '%s:opus_decode_native applies the gain to what `%s` (line %s) produced' % (prog.config, sx.callee_name(c), sx.line(c))
+        where = '%s:%s' % (f.file, sx.line(c))
+        if sx.callee_name(c) in applying:
+            rep.holds('R19.10', inst, where, 'the callee applies it')
+            continue
+        sites = {b2 for b2, i2, c2 in T.calls_to(cf, tuple(applying))}
+        succ = {b2 for b2, i2, r_ in T.returns_of(cf) if (b2 == b or b2 in cf.reachable_from(b)) and not (len(r_) > 1 and (sx.int_val(sx.strip(r_[1])) or 0) < 0)
+                and not (len(r_) > 1 and sx.kind(sx.strip(r_[1])) == 'local' and any(a[0] == '<' and a[1] == sx.key(sx.strip(r_[1])) and a[2] == ('int', 0) for a in T.stable_facts(cf, b2, i2)))}
+        if succ and sites and cf.must_pass_live(b, succ, sites):
+            rep.holds('R19.10', inst, where, 'followed by a gain-applying call on every live path')
+        else:
+            rep.violated('R19.10', inst, where, 'a success return is reachable from this call without passing a gain-applying call (%s): these samples come out at unity gain while the rest of the stream is scaled' % sorted(applying),
+                         key='gain-coverage:%s' % sx.line(c))
+    if n < 3:
+        rep.unresolved('R19.10', 'only %d frame-decoder calls in opus_decode_native' % n)
+
+
 def r19_3(rep, prog):
     # who reads decode_gain
     readers = {}
@@ -157,10 +201,13 @@ def r19_3(rep, prog):
             if n[0] == 'field' and n[2] == 'OpusDecoder' and n[3] == 'decode_gain':
                 readers.setdefault(f.name, []).append(n)
     fdecs = roles.frame_decoders(prog)
-    gainf = roles.holding(fdecs, lambda n: n[0] == 'field' and n[2] == 'OpusDecoder' and n[3] == 'decode_gain')
+    # the function that scales the PCM: the one reader of decode_gain besides the ctl dispatcher (a frame decoder wrapper today;
+    # a per-packet helper would do as well - coverage of every decode path is R19.10's business, not a matter of where it lives)
+    gainf = [prog.fn(nm) for nm in sorted(readers) if nm != 'opus_decoder_ctl' and prog.has_fn(nm)]
     if len(gainf) != 1:
-        rep.violated('R19.3', '%s:exactly one per-frame decoder function applies the gain' % prog.config, None, 'functions reading decode_gain: %s' % [g.name for g in gainf], key='gain-functions')
+        rep.violated('R19.3', '%s:exactly one function applies the decoder gain' % prog.config, None, 'functions reading decode_gain: %s' % [g.name for g in gainf], key='gain-functions')
         return
+    r19_10(rep, prog, fdecs, gainf[0])
     allowed = {'opus_decoder_ctl', gainf[0].name}
     extra = set(readers) - allowed
     if extra:
